@@ -1071,11 +1071,22 @@ def mf_test_doubles(ctx, h2d, q2d):
     return half, quarter
 
 
+def _limited_broken(ctx, limit=3):
+    """ctx.broken, at most `limit` times per name (a systematic model/code difference would otherwise flood the evidence)"""
+    seen = {}
+    def f(name, reason):
+        seen[name] = seen.get(name, 0) + 1
+        if seen[name] <= limit:
+            ctx.broken(name, reason + (" (further cases of this kind are not listed)" if seen[name] == limit else ""))
+    return f
+
+
 def check_minifloats(ctx, d, exe):
     """K-inner: the four C functions of the scratch build's libchibi-scheme (harness/embed_c19_half.c) vs the extracted model on bit patterns:
     every half / quarter pattern decoded, every decoded value re-encoded, doubles straddling every rounding boundary; K-outer: the same through
     f16vector-set!/ref, f8vector-set!/ref and the #f16( ) / #f8( ) reader and writer of the real binary"""
     here = os.path.dirname(os.path.abspath(__file__))
+    broken = _limited_broken(ctx)
     try:
         emb = B.cc_embed(d, os.path.join(here, "..", "harness", "embed_c19_half.c"), os.path.join(d, "embed_c19_half"))
     except B.BuildError as e:
@@ -1110,7 +1121,7 @@ def check_minifloats(ctx, d, exe):
                 ctx.violation("minifloat:%s-to-double:wrong-value" % name, input="pattern 0x%x" % p, expected="%s" % (float(exp) if isinstance(exp, Fraction) else exp),
                               observed="bits %016x = %r" % (i, bitsd(i)), replay="echo '%s %x' | %s   # = (%svector-ref v 0) of a vector holding that pattern" % ("h2d" if name == "half" else "q2d", p, emb, t))
             elif m != i:
-                ctx.broken("minifloat:model-vs-code:%s-to-double" % name, "pattern 0x%x: model %016x, code %016x (code agrees with the format)" % (p, m, i))
+                broken("minifloat:model-vs-code:%s-to-double" % name, "pattern 0x%x: model %016x, code %016x (code agrees with the format)" % (p, m, i))
     if len(mh) != 65536 or len(ih) != 65536 or len(mq) != 256 or len(iq) != 256:
         ctx.broken("minifloat:sweep-size", "decode sweep returned %d/%d/%d/%d values" % (len(mh), len(ih), len(mq), len(iq)))
         return
@@ -1166,7 +1177,7 @@ def check_minifloats(ctx, d, exe):
                 ctx.violation("minifloat:double-to-%s:not-nearest" % name, input="double %r (bits %016x)" % (x, b), expected="a nearest representable %s (model: 0x%s)" % (name, m), observed="0x%x = %r" % (got, tab[got] if 0 <= got < len(tab) else None), replay=rp)
                 continue
         if m != i:
-            ctx.broken("minifloat:model-vs-code:" + op, "double bits %016x: model 0x%s, code 0x%x" % (b, m, got))
+            broken("minifloat:model-vs-code:" + op, "double bits %016x: model 0x%s, code 0x%x" % (b, m, got))
     ctx.sample(dict(kind="minifloat", request=lines[0x0200], model=mo[0x0200], impl=io[0x0200]))
     # ---- K-outer: f16vector-set!/ref and f8vector-set!/ref of the real binary on the same doubles; reader / writer of the literals
     exprs, meta = [], []
@@ -1227,8 +1238,212 @@ def check_minifloats(ctx, d, exe):
                           observed=("%r (bits %016x)" % (bitsd(gj), gj)) if gj is not None else o[:80], replay=rp)
             break
 
+# ------------------------------------------------------------------------------------------ CSV
+CSV_PRELUDE = r"""
+(define (csv-g seps qc dbl esc rs)    ; build the grammar through the public constructor
+  (csv-grammar (list (cons 'separator-chars (map integer->char seps))
+                     (cons 'quote-char (and qc (integer->char qc)))
+                     (cons 'quote-doubling-escapes? dbl)
+                     (cons 'escape-char (and esc (integer->char esc)))
+                     (cons 'record-separator (if (integer? rs) (integer->char rs) rs)))))
+(define (s->cps s) (map char->integer (string->list s)))
+(define (csv-w g rows) (let ((o (open-output-string))) ((csv-write (csv-writer g)) rows o) (get-output-string o)))
+(define (csv-r g s) (csv->list (csv-read->list (csv-parser g)) (open-input-string s)))
+(define (rows->cps rows) (map (lambda (r) (map s->cps r)) rows))
+(define (csv-wr g rows)      ; -> (text read-back)
+  (let ((t (csv-w g rows))) (list (s->cps t) (rows->cps (csv-r g t)))))
+(define (csv-others g s)     ; the other readers / folds must agree with csv->list on the same text
+  (let* ((p (csv-parser g))
+         (a (csv-r g s))
+         (v (csv-map vector->list (csv-read->vector p) (open-input-string s)))
+         (n (csv-fold (lambda (row acc) (+ acc 1)) 0 (csv-read->list p) (open-input-string s)))
+         (fe (let ((acc '())) (csv-for-each (lambda (row) (set! acc (cons row acc))) (csv-read->list p) (open-input-string s)) (reverse acc)))
+         (sx ((csv->sxml 'r (lambda (i) i) p) (open-input-string s)))
+         (w (if (pair? a) (length (car a)) 0))
+         (fv (if (and (pair? a) (every-same-length? a))
+                 (csv-map vector->list (csv-read->fixed-vector w p) (open-input-string s))
+                 a)))
+    (list (equal? a v) (= n (length a)) (equal? a fe)
+          (equal? a (map (lambda (row) (map cadr (cdr row))) (cdr sx)))
+          (equal? a fv))))
+(define (every-same-length? a) (let ((w (length (car a)))) (let lp ((a a)) (or (null? a) (and (= w (length (car a))) (lp (cdr a)))))))
+"""
+CSV_IMPORTS = IMPORTS + "\n(import (chibi csv))"
+CSV_GRAMMARS = [   # (seps, quote, dbl, esc, rs)  rs: 'lax' | 'crlf' | code point
+    ([44], 34, True, None, "lax"),
+    ([59], 34, True, None, "lax"),
+    ([9], 34, True, None, "crlf"),
+    ([59, 9, 44], 39, True, None, "lax"),
+    ([44], 34, False, 92, "lax"),
+    ([44], 34, True, 92, "crlf"),
+    ([59], 39, False, 92, 10),      # 'lf
+    ([44], 34, True, None, 13),     # 'cr
+    ([44], 34, True, None, 124),    # a single-character record separator
+    ([124], 96, True, 94, 59),
+]
+
+
+def csv_gtok(g):
+    seps, q, dbl, esc, rs = g
+    return "%s:%s:%d:%s:%s" % (".".join("%x" % c for c in seps), "n" if q is None else "%x" % q, 1 if dbl else 0, "n" if esc is None else "%x" % esc, rs if isinstance(rs, str) else "%x" % rs)
+
+
+def csv_gscm(g):
+    seps, q, dbl, esc, rs = g
+    return "(csv-g '(%s) %s %s %s %s)" % (" ".join(map(str, seps)), "#f" if q is None else q, "#t" if dbl else "#f", "#f" if esc is None else esc, ("'" + rs) if isinstance(rs, str) else rs)
+
+
+def csv_rows_tok(rows):
+    if not rows:
+        return "-"
+    return "|".join("~" if not r else ";".join(cpl(f) for f in r) for r in rows)
+
+
+def csv_rows_parse(tok):
+    if tok == "-":
+        return []
+    return [[] if r == "~" else [[] if f == "_" else [int(x, 16) for x in f.split(",")] for f in r.split(";")] for r in tok.split("|")]
+
+
+def csv_rows_scm(rows):
+    return "(list %s)" % " ".join("(list %s)" % " ".join("(cps %s)" % " ".join(map(str, f)) for f in r) for r in rows)
+
+
+def csv_parse_nested(txt):
+    """'((97 98) ...)' nested lists of integers as written by chibi -> python lists"""
+    out, stack, num = None, [], ""
+    for ch in txt + " ":
+        if ch.isdigit():
+            num += ch
+            continue
+        if num:
+            stack[-1].append(int(num)); num = ""
+        if ch == "(":
+            stack.append([])
+        elif ch == ")":
+            l = stack.pop()
+            if stack: stack[-1].append(l)
+            else: out = l
+    return out
+
+
+def csv_gen_field(rng, g):
+    seps, q, dbl, esc, rs = g
+    special = list(seps) + [13, 10, 32] + ([q] if q is not None else []) + ([esc] if esc is not None else []) + ([rs] if isinstance(rs, int) else []) + [34, 44, 59]
+    plain = [97, 98, 0x41, 0x7A, 0x30, 0xE9, 0x3BB, 0x1F600, 35]
+    r = rng.random()
+    if r < 0.12:
+        return []
+    n = rng.choice([1, 1, 2, 2, 3, 4, 6])
+    f = [rng.choice(plain) for _ in range(n)]
+    k = rng.random()
+    if k < 0.75:     # a special character (or CR LF pair) at the start, the middle, the end, or everywhere
+        where = rng.choice(["start", "mid", "end", "all", "two"])
+        sp = [rng.choice(special)] if rng.random() < 0.8 else [13, 10]
+        if where == "start": f = sp + f
+        elif where == "end": f = f + sp
+        elif where == "mid": f = f[:n // 2] + sp + f[n // 2:]
+        elif where == "two": f = sp + f + [rng.choice(special)]
+        else: f = [rng.choice(special) for _ in range(n)]
+    return f
+
+
+def csv_gen_table(rng, g):
+    rows = []
+    for _ in range(rng.choice([1, 1, 2, 3, 4])):
+        r = rng.random()
+        if r < 0.06: rows.append([])
+        elif r < 0.12: rows.append([[]])
+        else: rows.append([csv_gen_field(rng, g) for _ in range(rng.choice([1, 2, 2, 3, 4]))])
+    return rows
+
+
 def check_csv(ctx, d, exe):
-    pass
+    """(chibi csv): csv-write / csv-writer vs the model's text, code point for code point; (csv->list (csv-read->list parser)) of the written text =
+    the table minus the two unrepresentable row shapes (SPEC, csv_roundtrip) = the model's reader; the reader on hostile texts = the model's value or an
+    error where the model has None; the other readers and folds agree with csv->list"""
+    rng = ctx.rng
+    broken = _limited_broken(ctx)
+    representable = lambda r: not (r == [] or r == [[]])
+    # ---- tables through writer and reader, every grammar
+    cases = []
+    fixed = [[[[97], [13]]], [[[13]]], [[[97, 13]]], [[[13, 97]]], [[[10]]], [[[13, 10]]], [[[97], [98, 13]], [[99]]], [[[34]]], [[[44]]], [[[]]], [[]], [[[], []]], [[[], [97]]], [[[97], []]],
+             [[[32]]], [[[97, 32, 98]]], [[[35]]], [[[97]], [[]], [[98]]], []]
+    for g in CSV_GRAMMARS:
+        for t in fixed:
+            cases.append((g, t))
+        for sp in list(g[0]) + [g[1], g[3], g[4] if isinstance(g[4], int) else None]:
+            if sp is not None:
+                for f in ([sp], [97, sp], [sp, 97], [97, sp, 98], [sp, sp]):
+                    cases.append((g, [[[120], f], [f, [121]], [f]]))
+        for _ in range(60 if not ctx.thorough else 1500):
+            cases.append((g, csv_gen_table(rng, g)))
+    reqs = ["csvw %s %s" % (csv_gtok(g), csv_rows_tok(t)) for g, t in cases]
+    mo = run_model(exe, reqs)
+    exprs = ["(csv-wr %s %s)" % (csv_gscm(g), csv_rows_scm(t)) for g, t in cases]
+    io = scm.run_cases(d, exprs, prelude_extra=PRELUDE + CSV_PRELUDE, imports=CSV_IMPORTS, timeout=120, chunk=400)
+    for (g, t), m, i, e in zip(cases, mo, io, exprs):
+        ctx.count(1, key=("csv-wr", csv_gtok(g), csv_rows_tok(t)), nontrivial=bool(t))
+        rp = "echo '(import (scheme base) (scheme write) (chibi csv)) %s (write %s)' | chibi-scheme /dev/stdin" % (" ".join(CSV_PRELUDE.split("\n")), e)
+        rp = "cat > /tmp/csv-replay.scm <<'EOF'\n(import (scheme base) (scheme write) (chibi csv))\n(define (cps . l) (list->string (map integer->char l)))%s\n(write %s)\nEOF\nchibi-scheme /tmp/csv-replay.scm   # -> (text read-back) as code point lists" % (CSV_PRELUDE, e)
+        if bad(i):
+            ctx.violation("csv:crash", input=e[:300], observed=i, replay=rp)
+            continue
+        if i.startswith("ERR"):
+            if m != "N":
+                ctx.violation("csv:write-read:error-on-well-formed-table", input="grammar %s table %s" % (csv_gtok(g), csv_rows_tok(t)), expected="text " + m, observed=i[:200], replay=rp)
+            continue
+        got = csv_parse_nested(i)
+        text, back = got[0], got[1]
+        want = [r for r in t if representable(r)]
+        if back != want:
+            ctx.violation("csv:roundtrip:%s" % ("default-grammar" if g == CSV_GRAMMARS[0] else "custom-grammar"), input="grammar %s table %s" % (csv_gtok(g), csv_rows_tok(t)),
+                          expected="read back %s" % csv_rows_tok(want), observed="text %s read back as %s" % (cpl(text), csv_rows_tok(back)), replay=rp)
+        elif m == "N" or cpl(text) != m[2:]:
+            broken("csv:model-vs-code:writer", "grammar %s table %s: model %s, code %s (the code's text reads back correctly)" % (csv_gtok(g), csv_rows_tok(t), m, cpl(text)))
+    ctx.sample(dict(kind="csv", request=reqs[7], model=mo[7], impl=io[7]))
+    # ---- the reader on arbitrary text: every string up to length 4 over {a , " CR LF} for the default grammar, seeded hostile strings for all grammars
+    texts = []
+    import itertools
+    for n in range(0, 5 if not ctx.thorough else 6):
+        for tup in itertools.product([97, 44, 34, 13, 10], repeat=n):
+            texts.append((CSV_GRAMMARS[0], list(tup)))
+    for g in CSV_GRAMMARS:
+        alpha = [97, 98, 32, 13, 10, 34, 44, 59, 9, 39, 92, 124, 0xE9, 0x1F600] + list(g[0]) + [c for c in (g[1], g[3]) if c is not None] + ([g[4]] if isinstance(g[4], int) else [])
+        for _ in range(60 if not ctx.thorough else 1500):
+            texts.append((g, [rng.choice(alpha) for _ in range(rng.choice([1, 2, 3, 5, 8, 12]))]))
+        q = g[1]
+        for tx in ([q], [q, 97], [97, q], [97, q, 98, q], [q, q], [q, q, q], [q, 97, q, q], [q, 97, q, 98], [13], [97, 13], [13, 10], [10, 13], [97, 44], [q, 13, 10, q, 13], [q, 97] + ([g[3]] if g[3] is not None else [q])):
+            texts.append((g, tx))
+    reqs = ["csvr %s %s" % (csv_gtok(g), cpl(tx)) for g, tx in texts]
+    mo = run_model(exe, reqs)
+    exprs = ["(rows->cps (csv-r %s (cps %s)))" % (csv_gscm(g), " ".join(map(str, tx))) for g, tx in texts]
+    io = scm.run_cases(d, exprs, prelude_extra=PRELUDE + CSV_PRELUDE, imports=CSV_IMPORTS, timeout=120, chunk=500)
+    agree = []
+    for (g, tx), m, i, e in zip(texts, mo, io, exprs):
+        ctx.count(1, key=("csv-r", csv_gtok(g), cpl(tx)), nontrivial=bool(tx))
+        rp = "cat > /tmp/csv-replay.scm <<'EOF'\n(import (scheme base) (scheme write) (chibi csv))\n(define (cps . l) (list->string (map integer->char l)))%s\n(write %s)\nEOF\nchibi-scheme /tmp/csv-replay.scm" % (CSV_PRELUDE, e)
+        if bad(i):
+            ctx.violation("csv:read-crash-or-hang", input="grammar %s text %s" % (csv_gtok(g), cpl(tx)), observed=i, replay=rp)
+        elif m == "N":
+            if not i.startswith("ERR"):
+                ctx.violation("csv:read-accepts-what-model-rejects", input="grammar %s text %s" % (csv_gtok(g), cpl(tx)), expected="error (unterminated quote / escape at end of input)", observed=i[:200], replay=rp)
+        elif i.startswith("ERR") or csv_parse_nested(i) != csv_rows_parse(m[2:]):
+            # which one is right?  the writer's image is covered by the round trip above; for other texts the reader's documented rules are the model
+            ctx.violation("csv:read-value", input="grammar %s text %s" % (csv_gtok(g), cpl(tx)), expected="rows " + m[2:], observed=i[:300], replay=rp)
+        else:
+            agree.append((g, tx))
+    # ---- the other readers / folds agree with csv->list (on texts the reader accepts)
+    sub = [x for k, x in enumerate(agree) if k % (7 if not ctx.thorough else 2) == 0]
+    exprs = ["(csv-others %s (cps %s))" % (csv_gscm(g), " ".join(map(str, tx))) for g, tx in sub]
+    io = scm.run_cases(d, exprs, prelude_extra=PRELUDE + CSV_PRELUDE, imports=CSV_IMPORTS, timeout=120, chunk=500)
+    for (g, tx), i, e in zip(sub, io, exprs):
+        ctx.count(1, key=("csv-others", csv_gtok(g), cpl(tx)), nontrivial=bool(tx))
+        if i != "(#t #t #t #t #t)":
+            names = ["csv-read->vector", "csv-fold", "csv-for-each", "csv->sxml", "csv-read->fixed-vector"]
+            which = "crash-or-error" if (bad(i) or i.startswith("ERR")) else ",".join(n for n, b in zip(names, i.strip("()").split()) if b != "#t")
+            ctx.violation("csv:entry:" + which, input="grammar %s text %s" % (csv_gtok(g), cpl(tx)), expected="(#t #t #t #t #t): same rows as csv->list", observed=(i or "")[:200],
+                          replay="cat > /tmp/csv-replay.scm <<'EOF'\n(import (scheme base) (scheme write) (chibi csv))\n(define (cps . l) (list->string (map integer->char l)))%s\n(write %s)\nEOF\nchibi-scheme /tmp/csv-replay.scm" % (CSV_PRELUDE, e))
 
 
 # ------------------------------------------------------------------------------------------ JSON
@@ -1434,13 +1649,13 @@ def check_corpus(ctx, d):
     import json as pj
     path = os.path.join(os.path.dirname(__file__), "..", "corpus", "C19", "regressions.jsonl")
     cases = [pj.loads(l) for l in open(path) if l.strip()]
-    io = scm.run_cases(d, [c["expr"] for c in cases], prelude_extra=PRELUDE, imports=IMPORTS, timeout=120)
+    io = scm.run_cases(d, [c["expr"] for c in cases], prelude_extra=PRELUDE, imports=IMPORTS + "\n(import (chibi csv) (chibi mime) (srfi 160 prims) (only (srfi 160 f16) make-f16vector))", timeout=120)
     for c, i in zip(cases, io):
         ctx.count(1, key=("corpus", c["name"]), nontrivial=True)
         ok = (i is not None and i.startswith("ERR")) if c["expect"] == "ERR" else i == c["expect"]
         if not ok:
             ctx.violation("corpus:" + c["name"], input=c["expr"], expected=c["expect"], observed=i,
-                          replay="echo '(import (scheme base) (scheme write) (scheme bytevector) (chibi json) (chibi base64) (chibi quoted-printable)) (write %s)' | chibi-scheme /dev/stdin" % c["expr"].replace("'", "'\\''"))
+                          replay="echo '(import (scheme base) (scheme write) (scheme bytevector) (chibi json) (chibi base64) (chibi quoted-printable) (chibi uri) (chibi csv) (chibi mime) (srfi 160 prims) (only (srfi 160 f16) make-f16vector)) (define (cps . l) (list->string (map integer->char l))) (write %s)' | chibi-scheme /dev/stdin   # xh = bytevector as hex symbol, see PRELUDE of props/C19.py" % c["expr"].replace("'", "'\\''"))
 
 
 def run(ctx):
@@ -1452,6 +1667,11 @@ def run(ctx):
                        "generic accessors) x boundary values, floats by bit pattern, default build and (out-of-window and edge offsets) asan build; base64 on ports: wrapped text "
                        "(every width 60-80, LF and CRLF) crossing 1-3 chunk boundaries with a line break at every offset -4..+4 around the first boundary and near the later ones, "
                        "padding / blanks / junk astride the boundaries, exact multiples of the chunk size, the empty stream; "
+                       "mini-floats: every one of the 65536 half and 256 quarter patterns decoded (vs the format's formula) and re-encoded (= the pattern), doubles at the midpoint, +-1 double ulp, "
+                       "+-1 float ulp of every 5th (thorough: every) pair of adjacent halves and of every pair of quarters, the subnormal / normal / overflow edges, both signs, random "
+                       "mantissas, through the C functions directly AND through f16vector-set!/ref, f8vector-set!/ref and the #f16( ) / #f8( ) reader and writer; CSV: tables over 10 grammars "
+                       "with every special character (quote, separators, escape, record separator, CR, LF, CRLF, space) at the start / middle / end of a field, empty fields and rows, "
+                       "all texts up to length 4 over {a , quote CR LF} and seeded hostile texts through the reader; "
                        "a case is distinct by (operation, input bytes, offset, value) and non-trivial unless the input is empty")
     from gen import c19_accessors
     table, _others = c19_accessors.regen(ctx)
@@ -1496,15 +1716,32 @@ def run(ctx):
         check_minifloats(ctx, d, exe)
     if on("csv"):
         check_csv(ctx, d, exe)
+    if on("extra"):
+        import importlib.util
+        xp = os.path.join(os.path.dirname(os.path.abspath(__file__)), "..", "harness", "c19_extra.py")
+        if os.path.exists(xp):
+            spec = importlib.util.spec_from_file_location("c19_extra", xp)
+            mod = importlib.util.module_from_spec(spec)
+            spec.loader.exec_module(mod)
+            left = mod.check_extra(ctx, d)
+            if left:
+                ctx.assume("harness/c19_extra.py (K-outer round trips of entry points without a model) does NOT exercise: " + "; ".join(left))
+        else:
+            ctx.broken("extra:missing", "harness/c19_extra.py not found")
     t3b = time.time()
     if on("json"):
         check_json(ctx, d, exe, dasan)
     t5 = time.time()
-    ctx.note("wall seconds: base64 %.1f, base64 ports/header %.1f, qp + entry points %.1f, uri + asan build %.1f, accessors (default+asan) %.1f, mini-floats + csv %.1f, json %.1f" % (t1 - t0, t1b - t1, t2 - t1b, t4 - t2, t3 - t4, t3b - t3, t5 - t3b))
-    ctx.assume("exported entry points NOT modelled and NOT exercised: (chibi csv) (whole library), (chibi json) make-json-reader, (chibi uri) uri->string / string->uri / "
-               "string->path-uri / make-uri / uri-with-* / uri-resolve / uri-query->alist / uri-alist->query (the last two only call uri-encode / uri-decode, which are modelled), "
-               "(scheme bytevector) string->utf16 / utf16->string / string->utf32 / utf32->string / bytevector->uint-list and friends, the SRFI 160 library above its primitive "
-               "accessors (those ARE swept: bounds, zero, set-one-element), mini-float conversions (f8/f16 values beyond 1.0/1.5); JSON floats are compared by class only")
+    ctx.note("wall seconds: base64 %.1f, base64 ports/header %.1f, qp + entry points %.1f, uri + asan build %.1f, accessors (default+asan) %.1f, mini-floats + csv + extra entry points %.1f, json %.1f" % (t1 - t0, t1b - t1, t2 - t1b, t4 - t2, t3 - t4, t3b - t3, t5 - t3b))
+    ctx.assume("(chibi csv): csv-grammar, csv-parser, csv-writer, csv-write, csv->list, csv-read->list are modelled (coq/C19/Csv.v, any grammar) and tied; csv-read->vector, "
+               "csv-read->fixed-vector, csv-fold, csv-map, csv-for-each, csv->sxml / csv-read->sxml are tied to csv->list on the same texts; NOT modelled: comment-chars, "
+               "quote-non-numeric?, non-string fields, csv-num-rows, csv-skip-line (only reached through comment-chars), default-tsv-grammar (quote-char #f: writer raises on a field with a tab)")
+    ctx.assume("mini-floats: sexp_half_to_double / sexp_double_to_half REGENERATED from sexp.c (gen/c19_half.py) and the quarter table REGENERATED; the hardware conversions double->float, "
+               "unsigned->float, float->double, double subtraction are modelled by one IEEE round-to-nearest-even function (round_mag) whose agreement with the machine is CHECKED on every "
+               "test double (harness/embed_c19_half.c calls the real functions), not proved against Flocq; C shift counts >= 32 (undefined behaviour) are modelled as x86 does (count mod 32) "
+               "and proved unreachable for the decoder where the term counts; finite doubles beyond the largest half / quarter do not become infinite (observation, see notes/C19.md)")
+    ctx.assume("exported entry points NOT modelled (K-outer round trips only, harness/c19_extra.py): (chibi uri) record API, (scheme bytevector) utf16 / utf32 transcoders and list helpers, "
+               "(chibi json) make-json-reader, (chibi mime) header decoding and transfer encodings; the SRFI 160 library above its primitive accessors; JSON floats are compared by class only")
     ctx.assume("every exported entry point of (chibi base64) and (chibi quoted-printable) is exercised: bytevector, string, binary-port, textual-port, current-output-port and "
                "*-header variants; (chibi json): string->json, json->string, json-read and json-write on string ports; (scheme bytevector): every accessor the stub defines "
                "(regenerated table) plus the generic uint/sint ones")
